@@ -8,6 +8,7 @@ From Coq Require Import List ZArith Bool Arith.
 Import ListNotations.
 From TI Require Import model.Settings proofs.SettingsProofs.
 From TI Require Import model.SettingsRender proofs.SettingsRenderProofs.
+From TI Require Import model.SettingsVal proofs.SettingsValProofs.
 
 (** effective value of a class = own value if set, else nearest ancestor's, else default —
     after every history of set / unset / invalid-set operations on any class or instance *)
@@ -163,3 +164,121 @@ Theorem C20_render_anim_fallback :
     used (render_used eff ov animated frame size limit) = WHOLE.
 Proof. exact render_used_fallback. Qed.
 Print Assumptions C20_render_anim_fallback.
+
+(** ** Round 5: the VALUES handed to the setters ([model/SettingsVal.v]).
+
+    "invalid values or instance-level writes to class-only settings are rejected without
+    changing anything" — for every value [v] of a universe of Python values ([None], any
+    string, any integer, booleans, floats incl. nan / inf, bytes, tuples, lists, other
+    sized containers, other objects of either truth value), every setting [st] (render
+    method of a style with any number of methods, forced support, JPEG quality,
+    read-from-file, the global native-animation limit), every level [lv] (class,
+    instance), every target and every prior history.  [doc_meaning] / [valid_for] are
+    written from the documentation; [front] / [vstep] are the checks and writes as the
+    code performs them ([isinstance], [.lower()] + membership, truthiness, ranges). *)
+
+(** the code's checks compute the documented meaning of EVERY value: set this / unset /
+    invalid with this error *)
+Theorem C20_value_checks_are_documented :
+  forall st lv v, front st lv v = to_fres (doc_meaning st lv v).
+Proof. exact front_is_doc. Qed.
+Print Assumptions C20_value_checks_are_documented.
+
+(** an invalid value is rejected with the documented error and the state is untouched —
+    from ANY state ... *)
+Theorem C20_invalid_rejected_from_any_state :
+  forall st par u lv t v,
+    valid_for st lv v = false ->
+    exists e, doc_meaning st lv v = MInvalid e /\ vstep st par u (VSet lv t v) = (u, VRej e).
+Proof. exact invalid_rejected. Qed.
+Print Assumptions C20_invalid_rejected_from_any_state.
+
+(** ... in particular after every prior history, and no class or instance reads anything
+    different afterwards *)
+Theorem C20_invalid_rejected_no_change :
+  forall st par icls nc ni hist lv t v,
+    valid_for st lv v = false ->
+    let u := vrun st par hist in
+    let r := vstep st par u (VSet lv t v) in
+    (exists e, doc_meaning st lv v = MInvalid e /\ snd r = VRej e) /\
+    fst r = u /\
+    vobserve st par icls nc ni (fst r) = vobserve st par icls nc ni u.
+Proof. exact invalid_rejected_no_change. Qed.
+Print Assumptions C20_invalid_rejected_no_change.
+
+Theorem C20_accepted_iff_valid :
+  forall st par u lv t v,
+    snd (vstep st par u (VSet lv t v)) = VOk <-> valid_for st lv v = true.
+Proof. exact accepted_iff_valid. Qed.
+Print Assumptions C20_accepted_iff_valid.
+
+(** instance-level writes (and deletions) of class-only settings: AttributeError for every
+    value, valid for the class or not *)
+Theorem C20_class_only_setting_instance_write :
+  forall st par u t v,
+    st = SFs \/ st = SNam ->
+    vstep st par u (VSet LInst t v) = (u, VRej AttrErr)
+    /\ vstep st par u (VDel LInst t) = (u, VRej AttrErr).
+Proof. exact class_only_setting_instance_write. Qed.
+Print Assumptions C20_class_only_setting_instance_write.
+
+(** [None] — and nothing else, of whatever type or truth value — unsets, and only the
+    render method *)
+Theorem C20_unset_only_by_none :
+  forall st lv v, front st lv v = FUnset <-> (exists n, st = SRm n) /\ v = VNone.
+Proof. exact unset_only_by_none. Qed.
+Print Assumptions C20_unset_only_by_none.
+
+Theorem C20_non_string_render_method_type_error :
+  forall n par u lv t v,
+    is_str v = false -> v <> VNone ->
+    vstep (SRm n) par u (VSet lv t v) = (u, VRej TypeErr).
+Proof. exact non_string_render_method_type_error. Qed.
+Print Assumptions C20_non_string_render_method_type_error.
+
+Theorem C20_unknown_string_render_method_value_error :
+  forall n par u lv t s,
+    ci_find 0 s (names n) = None ->
+    vstep (SRm n) par u (VSet lv t (VStr s)) = (u, VRej ValueErr).
+Proof. exact unknown_string_render_method_value_error. Qed.
+Print Assumptions C20_unknown_string_render_method_value_error.
+
+(** value-level histories: the dictionaries / the global cell are those of the documented
+    reading of the history, in which invalid operations do not occur at all ... *)
+Theorem C20_value_history_reading :
+  forall st k par ops,
+    kind_of st = Some k -> u_s (vrun st par ops) = run k par (doc_ops st ops).
+Proof. exact vrun_doc. Qed.
+Print Assumptions C20_value_history_reading.
+
+Theorem C20_value_history_reading_limit :
+  forall par ops, u_g (vrun SNam par ops) = grun (doc_gops ops).
+Proof. exact vrun_gdoc. Qed.
+Print Assumptions C20_value_history_reading_limit.
+
+(** ... so every class and instance reads what the documented rule says (own, else nearest
+    class, else default; one global limit), after every history over the whole universe *)
+Theorem C20_value_history_spec :
+  forall st par icls nc ni ops,
+    wf_par par ->
+    vobserve st par icls nc ni (vrun st par ops) = vspec_observe st par icls nc ni ops.
+Proof. exact vobserve_spec. Qed.
+Print Assumptions C20_value_history_spec.
+
+(** outcomes (accepted / which error) and readings after every operation: model = spec *)
+Theorem C20_value_trace_spec :
+  forall st par icls nc ni ops,
+    wf_par par ->
+    vtrace st par icls nc ni (uinit st) ops = vspec_trace st par icls nc ni ops.
+Proof. exact vtrace_spec. Qed.
+Print Assumptions C20_value_trace_spec.
+
+(** a design the property excludes: dispatching the argument check on the value's truth
+    value takes EVERY falsy value of the wrong type ([0], [0.0], [False], [()], [[]],
+    [{}], [b""], ...) for [None] *)
+Theorem C20_excludes_truthiness_dispatch :
+  forall n lv v,
+    truthy v = false -> is_str v = false -> v <> VNone ->
+    valid_for (SRm n) lv v = false /\ front_rm_truthy n v = FUnset.
+Proof. exact truthy_dispatch_refuted. Qed.
+Print Assumptions C20_excludes_truthiness_dispatch.
